@@ -5,16 +5,18 @@
 set -u
 D=$1; K=$2
 WT=$(mktemp -d /tmp/mutv.XXXXXX)
+L=$(mktemp -d /tmp/mutvlog.XXXXXX)
 git -C /repo worktree add --detach -f "$WT" HEAD >/dev/null 2>&1 || { echo "worktree failed"; exit 2; }
 cd "$WT"
 ( ./configure && make -j16 ) >/dev/null 2>&1 || { echo "clean build failed"; }
-bash "$D/demo$K.sh" "$WT" >/tmp/mutv_clean.out 2>&1; CLEAN=$?
+bash "$D/demo$K.sh" "$WT" >$L/clean.out 2>&1; CLEAN=$?
 git apply "$D/patch$K.diff" || { echo "patch does not apply"; git -C /repo worktree remove --force "$WT"; exit 2; }
-make -j16 >/tmp/mutv_build.out 2>&1; BUILD=$?
-bash "$D/demo$K.sh" "$WT" >/tmp/mutv_patched.out 2>&1; PATCHED=$?
-make tests >/tmp/mutv_tests.out 2>&1; TESTS=$?
-NPASS=$(grep -c -i "pass" /tmp/mutv_tests.out); NFAIL=$(grep -c -i "fail" /tmp/mutv_tests.out)
+make -j16 >$L/build.out 2>&1; BUILD=$?
+bash "$D/demo$K.sh" "$WT" >$L/patched.out 2>&1; PATCHED=$?
+make tests >$L/tests.out 2>&1; TESTS=$?
+NPASS=$(grep -c -i "pass" $L/tests.out); NFAIL=$(grep -c -i "fail" $L/tests.out)
 cd /
 git -C /repo worktree remove --force "$WT"
 echo "demo_clean_exit=$CLEAN build_exit=$BUILD demo_patched_exit=$PATCHED tests_exit=$TESTS pass_lines=$NPASS fail_lines=$NFAIL"
-tail -n 3 /tmp/mutv_patched.out
+tail -n 3 $L/patched.out
+rm -rf "$L"
